@@ -17,9 +17,11 @@ namespace {
 std::atomic<int> gInFlight{0};
 std::atomic<int> gMaxInFlight{0};
 
-uint64_t runOne(uint64_t seed, size_t steps, bool threaded, uint64_t jitterSeed, int focus)
+// proto: if set, the thread's Encoder / Decoder / Status start as copies of these (made by the caller before any thread runs)
+uint64_t runOne(uint64_t seed, size_t steps, bool threaded, uint64_t jitterSeed, int focus, const wl::State* proto = nullptr)
 {
-    wl::State st;
+    wl::State fresh;
+    wl::State st(proto ? *proto : fresh);
     wl::DigestSink sink;
     Rng r(seed);
     Rng jr(jitterSeed);
@@ -88,6 +90,22 @@ void roundCase(Ctx& c, long idx)
     for (int t = 0; t < T; ++t)
         seeds.push_back(mix64(mix64(c.seed, static_cast<uint64_t>(idx)), static_cast<uint64_t>(t) + 1));
     c.note("round " + std::to_string(idx) + " threads=" + std::to_string(T) + " steps=" + std::to_string(steps));
+    // every fourth round the threads' objects are not fresh but copies of one used prototype (an Encoder that has sent frames,
+    // a Decoder in the middle of reassemblies, a Status that knows devices), all copies made before the threads start:
+    // copies are distinct objects too
+    const bool copied = (idx % 4 == 2);
+    wl::State protoState;
+    std::vector<wl::State> copies;
+    if (copied)
+    {
+        Rng pr(mix64(c.seed, 0xC0FFEE ^ static_cast<uint64_t>(idx)));
+        wl::DigestSink ps;
+        for (size_t i = 0; i < 60; ++i)
+            wl::step(protoState, pr, ps, static_cast<int>(i % 6));
+        for (int t = 0; t < T; ++t)
+            copies.push_back(protoState);
+        c.count("rounds_on_copies_of_a_used_prototype");
+    }
     // concurrently first (so that lazily initialised static state, if any, is initialised under contention), then alone
     gMaxInFlight.store(0);
     Barrier b(T);
@@ -95,12 +113,12 @@ void roundCase(Ctx& c, long idx)
     for (int t = 0; t < T; ++t)
         th.emplace_back([&, t] {
             b.wait();
-            got[static_cast<size_t>(t)] = runOne(seeds[static_cast<size_t>(t)], steps, true, seeds[static_cast<size_t>(t)] ^ 0x77, focus);
+            got[static_cast<size_t>(t)] = runOne(seeds[static_cast<size_t>(t)], steps, true, seeds[static_cast<size_t>(t)] ^ 0x77, focus, copied ? &copies[static_cast<size_t>(t)] : nullptr);
         });
     for (auto& x : th)
         x.join();
     for (int t = 0; t < T; ++t)
-        expected[static_cast<size_t>(t)] = runOne(seeds[static_cast<size_t>(t)], steps, false, 0, focus);
+        expected[static_cast<size_t>(t)] = runOne(seeds[static_cast<size_t>(t)], steps, false, 0, focus, copied ? &protoState : nullptr);
     int overlap = gMaxInFlight.load();
     for (int t = 0; t < T; ++t)
     {
